@@ -20,6 +20,7 @@ TARGET = os.path.join(ROOT, "target")
 WORK = os.path.join(ROOT, "work")
 EVID = os.path.join(ROOT, "evidence")
 GUARD = "mithril_verif"
+EXTRA_ID_BASE = 1000000
 NCPU = os.cpu_count() or 4
 
 STD_AXIOMS_ALLOWED = {
@@ -250,8 +251,8 @@ def cargo_build(bins=None, package=None, release=False, timeout=3600):
     return rc == 0, out
 
 
-def run_harness(prop, seed, tier, out_path, only=None, timeout=3600, extra=None):
-    exe = os.path.join(TARGET, "debug", prop["harness"]["bin"])
+def run_harness(prop, seed, tier, out_path, only=None, timeout=3600, extra=None, bin_name=None):
+    exe = os.path.join(TARGET, "debug", bin_name or prop["harness"]["bin"])
     cmd = [exe, "--seed", str(seed), "--tier", tier, "--out", out_path]
     if only is not None:
         cmd += ["--only", str(only)]
@@ -430,6 +431,30 @@ def check(pid, tier, seed, replay_file=None):
             broken.append(("harness-run", f"harness exited with {rc}:\n" + harness_log[-3000:]))
         else:
             cases = read_cases(cases_path)
+        # further entry points of the same property that live in another crate of /repo: extra harness
+        # binaries; their case ids are offset by EXTRA_ID_BASE * (k + 1)
+        for k, xh in enumerate(prop["harness"].get("extra", [])):
+            base_id = EXTRA_ID_BASE * (k + 1)
+            x_only = None
+            if only is not None:
+                if not (base_id <= int(only) < base_id + EXTRA_ID_BASE):
+                    continue
+                x_only = int(only) - base_id
+            ok_x, out_x = cargo_build(bins=[xh["bin"]], package=xh["package"])
+            if not ok_x:
+                tail = "\n".join([l for l in out_x.split("\n") if l.strip()][-40:])
+                broken.append(("harness-build", f"extra harness {xh['bin']} no longer builds against /repo:\n" + tail))
+                continue
+            xp = os.path.join(workdir, f"cases_extra{k}.jsonl")
+            rc_x, log_x = run_harness(prop, seed, tier, xp, only=x_only, timeout=to, bin_name=xh["bin"])
+            if rc_x != 0 or not os.path.exists(xp):
+                broken.append(("harness-run", f"extra harness {xh['bin']} exited with {rc_x}:\n" + log_x[-3000:]))
+                continue
+            for c in read_cases(xp):
+                c["id"] = base_id + int(c["id"])
+                cases.append(c)
+        if only is not None and int(only) >= EXTRA_ID_BASE:
+            cases = [c for c in cases if int(c["id"]) == int(only)]
         # 6. evaluate the model on the same cases, compare inside Coq
         if cases:
             with_model = [c for c in cases if c.get("model")]
@@ -510,7 +535,19 @@ def check(pid, tier, seed, replay_file=None):
             log("obligation broken; searching the implementation for a failing input (thorough generators, implementation only)")
             sp = os.path.join(workdir, "search.jsonl")
             rc, _ = run_harness(prop, seed, "thorough", sp, timeout=prop["harness"].get("timeout_search", 900))
-            if os.path.exists(sp):
+            for k, xh in enumerate(prop["harness"].get("extra", [])):
+                xsp = os.path.join(workdir, f"search_extra{k}.jsonl")
+                run_harness(prop, seed, "thorough", xsp, timeout=prop["harness"].get("timeout_search", 900), bin_name=xh["bin"])
+                if os.path.exists(xsp) and found is None:
+                    try:
+                        for c in read_cases(xsp):
+                            if c.get("holds") is False and not (c.get("known") in kf):
+                                c["id"] = EXTRA_ID_BASE * (k + 1) + int(c["id"])
+                                found = (c, "thorough")
+                                break
+                    except Exception:
+                        pass
+            if os.path.exists(sp) and found is None:
                 try:
                     for c in read_cases(sp):
                         if c.get("holds") is False and not (c.get("known") in kf):
@@ -559,6 +596,8 @@ def check(pid, tier, seed, replay_file=None):
                "axioms reported by Print Assumptions: " + (", ".join(axset) if axset else "none (closed under the global context)"),
                "translator driver/gen_consts.py (constants read from /repo)",
                "correspondence harness harness/" + prop["harness"]["package"] + "/src/bin/" + prop["harness"]["bin"] + ".rs + driver/core.py (comparison by obs_eqb inside Coq)"]
+    for xh in prop["harness"].get("extra", []):
+        trusted.append("extra correspondence harness harness/" + xh["package"] + "/src/bin/" + xh["bin"] + ".rs (implementation-side entry point in another crate)")
     trusted += prop.get("trusted_base", [])
     ev = {
         "property_id": pid, "tier": tier, "seed": seed, "level": "proof",
